@@ -139,6 +139,60 @@ Theorem C16_view_is_coord_affine :
 Proof. exact (fun R m n A t lo hi s0 s1 => conj (affine_coord A t) (rescaled_coord A t lo hi s0 s1)). Qed.
 Print Assumptions C16_view_is_coord_affine.
 
+(* The Newton step of a call depends on that call's arguments only.
+   Code: in JacobianSolver.step the keywords of jac_svd.lstsq(...) are the step's own
+   parameters rcond / sing_val_cutoff, which are never re-bound and never stored on the solver
+   (no self.rcond / self.sing_val_cutoff anywhere in the class); Optimize.step and
+   Optimize.solve hand their own parameters through; the Broyden update has the modelled shape.
+   Model ([solver_step], state = current point + Jacobian cache only): the step taken is the
+   least-squares solution [lst a J y] for THIS call's arguments [a], and two histories of calls
+   - with whatever rcond / cutoff / broyden arguments - that reach the same point with the same
+   cache take the same step for the same arguments. *)
+Theorem C16_step_args_local :
+  (sc_lstsq_kwargs step_args = [:: ("rcond", ArgParam "rcond"); ("sing_val_cutoff", ArgParam "sing_val_cutoff")]%string /\
+   sc_params_rebound step_args = [::] /\ sc_self_stores step_args = [::] /\
+   sc_optimize_step_kwargs step_args =
+     [:: ("rcond", ArgParam "rcond"); ("sing_val_cutoff", ArgParam "sing_val_cutoff"); ("broyden", ArgLocal "this_broyden")]%string /\
+   sc_solve_kwargs step_args =
+     [:: ("rcond", ArgParam "rcond"); ("sing_val_cutoff", ArgParam "sing_val_cutoff"); ("broyden", ArgParam "broyden")]%string /\
+   sc_broyden_update step_args = true) /\
+  (forall (R : realFieldType) (m k' : nat) (f : 'cV[R]_(k'.+1) -> 'cV[R]_m) (h : 'cV[R]_(k'.+1))
+          (lst : call_args R -> 'M[R]_(m, k'.+1) -> 'cV[R]_m -> 'cV[R]_(k'.+1)),
+     let sstep := solver_step f h (fd_column fd) lst in
+     let run := run_calls f h (fd_column fd) lst in
+     (forall a st, sstep a st =
+        mk_sstate (st_x st - lst a (step_jac f h (fd_column fd) a st) (f (st_x st)))
+                  (Some (step_jac f h (fd_column fd) a st, st_x st, f (st_x st)))) /\
+     (forall pre1 pre2 st1 st2 a,
+        st_x (run pre1 st1) = st_x (run pre2 st2) -> st_cache (run pre1 st1) = st_cache (run pre2 st2) ->
+        sstep a (run pre1 st1) = sstep a (run pre2 st2))).
+Proof.
+  exact (conj step_code_local (fun R m k' f h lst =>
+           conj (@solver_stepE R m k' f h lst) (@step_args_local R m k' f h lst))).
+Qed.
+Print Assumptions C16_step_args_local.
+
+(* Consequence for consistent affine problems of full column rank: after ANY sequence of
+   earlier calls on the same solver (any rcond, sing_val_cutoff, broyden - truncating or not,
+   Broyden updates of the cached Jacobian included) a call whose own arguments retain every
+   singular value (None = the SVD default) reaches residual 0 in one step. *)
+Theorem C16_plain_call_lands_after_any_history :
+  forall (R : realFieldType) (m k' : nat) (f : 'cV[R]_(k'.+1) -> 'cV[R]_m) (h : 'cV[R]_(k'.+1))
+         (lst : call_args R -> 'M[R]_(m, k'.+1) -> 'cV[R]_m -> 'cV[R]_(k'.+1))
+         (U : 'M[R]_(m, k'.+1)) (Vh : 'M[R]_(k'.+1, k'.+1)) (s : 'rV[R]_(k'.+1)) (default_rcond : R),
+    U^T *m U = 1%:M -> Vh *m Vh^T = 1%:M ->
+    forall (A : 'M[R]_(m, k'.+1)) (t : 'cV[R]_m) (xstar : 'cV[R]_(k'.+1)),
+    A = U *m diag_mx s *m Vh -> A *m xstar = t -> (forall j, h j 0 != 0) -> f = affine A t ->
+    (forall a y, lst a A y = lstsq_x U Vh s (lq_masks lstsq) (eff_rcond default_rcond a) (eff_cutoff k' a) y) ->
+    forall (calls : seq (call_args R)) (x0 : 'cV[R]_(k'.+1)) (a : call_args R),
+    (forall i, keep s (eff_rcond default_rcond a) (eff_cutoff k' a) i) ->
+    f (st_x (solver_step f h (fd_column fd) lst a (run_calls f h (fd_column fd) lst calls (mk_sstate x0 None)))) = 0.
+Proof.
+  exact (fun R m k' f h lst U Vh s dr HU HV A t xstar HA Hc Hh Hf Hl =>
+           @plain_call_lands_after_any_history R m k' f h lst U Vh s dr HU HV A t xstar HA Hc Hh Hf Hl).
+Qed.
+Print Assumptions C16_plain_call_lands_after_any_history.
+
 (* Non-vacuity: the hypotheses of C16_lstsq_minnorm and C16_newton_lands hold for
    the 1 x 1 decomposition 2 = 1 * 2 * 1 over the rationals, with rcond = 1/4. *)
 Example C16_nonvacuous :
